@@ -7,9 +7,14 @@
      [t|->"bm",name,self]  (bound method)  [t|->"ref",a]  (address into the object store)
      [t|->"unbound"]  (slot declared but not assigned)
      [t|->"struct",ks,vs]  (immutable record: field names as code point sequences, in creation order)
+     [t|->"rec",ty,vs]  (instance of the record type at address ty: one value per declared field)
+     [t|->"ev",ty,i]    (the i-th value of the enum type at address ty)
    The object store `h` is a sequence of objects:
      [kind|->"list", items, locks, frozen]     [kind|->"dict", keys, vals, locks, frozen]
      [kind|->"frame", names, vals]             [kind|->"fn", name, params, defaults, body, env, lam]
+     [kind|->"rtype", name, fields]  (record type; fields: [n (code points), ty (a type), d (default or unbound)];
+                                      name: <<>> until the type is first assigned to a module-level variable)
+     [kind|->"etype", name, vals]    (enum type; vals: its values, in declaration order)
    Nothing here depends on the *number* an address is: no operator returns anything derived from
    an address other than through the object it designates.
 
@@ -46,6 +51,8 @@ IsList(v, h) == v.t = "ref" /\ h[v.a].kind = "list"
 IsDict(v, h) == v.t = "ref" /\ h[v.a].kind = "dict"
 IsFn(v, h) == v.t = "ref" /\ h[v.a].kind = "fn"
 IsSet(v, h) == v.t = "ref" /\ h[v.a].kind = "set"
+IsRType(v, h) == v.t = "ref" /\ h[v.a].kind = "rtype"
+IsEType(v, h) == v.t = "ref" /\ h[v.a].kind = "etype"
 
 TypeName(v, h) ==
     IF v.t = "none" THEN "NoneType"
@@ -55,8 +62,10 @@ TypeName(v, h) ==
     ELSE IF v.t = "tuple" THEN "tuple"
     ELSE IF v.t = "range" THEN "range"
     ELSE IF v.t \in {"bi", "bm", "partial"} THEN "function"
-    ELSE IF v.t = "ref" THEN (IF h[v.a].kind = "fn" THEN "function" ELSE h[v.a].kind)
+    ELSE IF v.t = "ref" THEN (IF h[v.a].kind \in {"fn", "rtype", "etype"} THEN "function" ELSE h[v.a].kind)
     ELSE IF v.t = "struct" THEN "struct"
+    ELSE IF v.t = "rec" THEN "record"
+    ELSE IF v.t = "ev" THEN "enum"
     ELSE "?"
 
 TypeNameCP(v, h) ==
@@ -67,7 +76,9 @@ TypeNameCP(v, h) ==
     ELSE IF v.t = "tuple" THEN <<116, 117, 112, 108, 101>>
     ELSE IF v.t = "range" THEN <<114, 97, 110, 103, 101>>
     ELSE IF v.t \in {"bi", "bm", "partial"} THEN <<102, 117, 110, 99, 116, 105, 111, 110>>      \* "function", also for builtins and bound methods
-    ELSE IF v.t = "ref" THEN (IF h[v.a].kind = "fn" THEN <<102, 117, 110, 99, 116, 105, 111, 110>> ELSE IF h[v.a].kind = "list" THEN <<108, 105, 115, 116>> ELSE IF h[v.a].kind = "set" THEN <<115, 101, 116>> ELSE <<100, 105, 99, 116>>)
+    ELSE IF v.t = "rec" THEN <<114, 101, 99, 111, 114, 100>>
+    ELSE IF v.t = "ev" THEN <<101, 110, 117, 109>>
+    ELSE IF v.t = "ref" THEN (IF h[v.a].kind \in {"fn", "rtype", "etype"} THEN <<102, 117, 110, 99, 116, 105, 111, 110>> ELSE IF h[v.a].kind = "list" THEN <<108, 105, 115, 116>> ELSE IF h[v.a].kind = "set" THEN <<115, 101, 116>> ELSE <<100, 105, 99, 116>>)
     ELSE IF v.t = "struct" THEN <<115, 116, 114, 117, 99, 116>>
     ELSE <<63>>
 
@@ -94,6 +105,8 @@ Eq(a, b, h) ==
     ELSE IF a.t = "range" THEN RangeItems(a) = RangeItems(b)
     ELSE IF a.t = "bi" THEN a.name = b.name
     ELSE IF a.t = "bm" THEN (a.name = b.name /\ Eq(a.self, b.self, h))
+    ELSE IF a.t = "rec" THEN (a.ty = b.ty /\ \A i \in 1..Len(a.vs) : Eq(a.vs[i], b.vs[i], h))
+    ELSE IF a.t = "ev" THEN (a.ty = b.ty /\ a.i = b.i)
     ELSE IF a.t = "struct" THEN      \* same fields (in any order), equal values
         (Len(a.ks) = Len(b.ks)
          /\ \A i \in 1..Len(a.ks) : LET j == FieldIdx(b.ks, a.ks[i]) IN j # 0 /\ Eq(a.vs[i], b.vs[j], h))
@@ -146,7 +159,8 @@ RECURSIVE Hashable(_, _)
 Hashable(v, h) ==
     IF v.t \in {"none", "bool", "int", "str", "bi"} THEN TRUE      \* a range is not hashable in this dialect
     ELSE IF v.t = "tuple" THEN \A i \in 1..Len(v.v) : Hashable(v.v[i], h)
-    ELSE IF v.t = "struct" THEN \A i \in 1..Len(v.vs) : Hashable(v.vs[i], h)
+    ELSE IF v.t = "struct" \/ v.t = "rec" THEN \A i \in 1..Len(v.vs) : Hashable(v.vs[i], h)
+    ELSE IF v.t = "ev" THEN TRUE
     ELSE IF v.t = "ref" THEN h[v.a].kind = "fn"
     ELSE FALSE
 
@@ -230,6 +244,11 @@ Repr(v, h, fuel) ==
         (<<123>> \o JoinSeq([i \in 1..Len(h[v.a].keys) |->
                     Repr(h[v.a].keys[i], h, fuel - 1) \o <<58, 32>> \o Repr(h[v.a].vals[i], h, fuel - 1)],
                   <<44, 32>>, 1) \o <<125>>)
+    ELSE IF v.t = "rec" THEN     \* record[Name](a=1, b="x")
+        (<<114, 101, 99, 111, 114, 100, 91>> \o h[v.ty].name \o <<93, 40>>
+           \o JoinSeq([i \in 1..Len(v.vs) |-> h[v.ty].fields[i].n \o <<61>> \o Repr(v.vs[i], h, fuel - 1)], <<44, 32>>, 1) \o <<41>>)
+    ELSE IF v.t = "ev" THEN      \* Name("x")
+        (h[v.ty].name \o <<40>> \o Repr(h[v.ty].vals[v.i], h, fuel - 1) \o <<41>>)
     ELSE IF v.t = "struct" THEN
         (<<115, 116, 114, 117, 99, 116, 40>>
            \o JoinSeq([i \in 1..Len(v.ks) |-> v.ks[i] \o <<61>> \o Repr(v.vs[i], h, fuel - 1)], <<44, 32>>, 1) \o <<41>>)
@@ -243,7 +262,9 @@ ReprDomain(v, h, fuel) ==
     ELSE IF v.t \in {"none", "bool", "int", "range"} THEN TRUE
     ELSE IF v.t = "str" THEN ReprOk(v.s)
     ELSE IF v.t = "tuple" THEN \A i \in 1..Len(v.v) : ReprDomain(v.v[i], h, fuel - 1)
-    ELSE IF v.t = "struct" THEN \A i \in 1..Len(v.vs) : ReprDomain(v.vs[i], h, fuel - 1)
+    ELSE IF v.t = "struct" \/ v.t = "rec" THEN
+        (v.t = "rec" => Len(h[v.ty].name) > 0) /\ \A i \in 1..Len(v.vs) : ReprDomain(v.vs[i], h, fuel - 1)
+    ELSE IF v.t = "ev" THEN Len(h[v.ty].name) > 0        \* values of a still anonymous enum type: not specified
     ELSE IF IsList(v, h) \/ IsSet(v, h) THEN \A i \in 1..Len(h[v.a].items) : ReprDomain(h[v.a].items[i], h, fuel - 1)
     ELSE IF IsDict(v, h) THEN
         \A i \in 1..Len(h[v.a].keys) : ReprDomain(h[v.a].keys[i], h, fuel - 1) /\ ReprDomain(h[v.a].vals[i], h, fuel - 1)
@@ -303,6 +324,8 @@ Enc(v, h, path) ==
     ELSE IF v.t = "tuple" THEN [t |-> "tuple", v |-> [i \in 1..Len(v.v) |-> Enc(v.v[i], h, path)]]
     ELSE IF v.t = "range" THEN [t |-> "range", v |-> <<v.a, v.b, v.c>>]
     ELSE IF v.t = "struct" THEN [t |-> "struct", k |-> v.ks, v |-> [i \in 1..Len(v.vs) |-> Enc(v.vs[i], h, path)]]
+    \* record / enum instances are compared through their repr (which names the type and every field)
+    ELSE IF v.t = "rec" \/ v.t = "ev" THEN [t |-> "repr", s |-> IF ReprDomain(v, h, 8) THEN Repr(v, h, 8) ELSE <<63>>]
     ELSE IF v.t = "bi" \/ v.t = "bm" THEN [t |-> "fn", name |-> v.name]
     ELSE IF v.t = "ref" THEN
         (IF v.a \in path THEN [t |-> "cycle"]
@@ -331,6 +354,7 @@ EncEq(a, b) ==
         (Len(a.k) = Len(b.k) /\ Len(a.v) = Len(b.v)
          /\ \A i \in 1..Len(a.k) : EncEq(a.k[i], b.k[i]) /\ EncEq(a.v[i], b.v[i]))
     ELSE IF a.t = "range" THEN (\A i \in 1..3 : a.v[i] = b.v[i])
+    ELSE IF a.t = "repr" THEN (Len(a.s) = Len(b.s) /\ \A i \in 1..Len(a.s) : a.s[i] = b.s[i])
     ELSE IF a.t = "struct" THEN
         (Len(a.k) = Len(b.k) /\ Len(a.v) = Len(b.v) /\ Len(a.k) = Len(a.v)
          /\ \A i \in 1..Len(a.k) : (Len(a.k[i]) = Len(b.k[i]) /\ \A j \in 1..Len(a.k[i]) : a.k[i][j] = b.k[i][j])
